@@ -28,6 +28,8 @@ type Srv struct {
 //	release rid                    the request leaves its hold point and runs up to streaming
 //	finish  rid                    the upstream ends the response normally
 //	health  up ok                  the stub upstream starts answering /healthz with 200 / 500
+//	storm   rid host delays        len(delays) clients (ids rid, rid+1, ...) send a streaming request for host after
+//	                               delays[i] µs, nobody waits: they race with the next op (unscripted schedule)
 type Op struct {
 	Op      string   `json:"op"`
 	Name    string   `json:"name,omitempty"`
@@ -39,6 +41,7 @@ type Op struct {
 	Watch   bool     `json:"watch,omitempty"`
 	Up      int      `json:"up,omitempty"`
 	Ok      bool     `json:"ok,omitempty"`
+	Delays  []int    `json:"delays,omitempty"` // storm: one request per entry, sent that many microseconds after the op
 }
 
 type Case struct {
@@ -95,18 +98,19 @@ type stats struct {
 }
 
 type runner struct {
-	c      *rig.Ctx
-	cs     Case
-	w      *world
-	mops   []map[string]interface{}
-	rids   []int
-	ridSet map[int]bool
-	keys   []string // plain
-	fails  []rig.Failure
-	errSeen int
-	st     *stats
-	prevDead string
-	cutSeen map[int]bool
+	c         *rig.Ctx
+	cs        Case
+	w         *world
+	mops      []map[string]interface{}
+	rids      []int
+	ridSet    map[int]bool
+	keys      []string // plain
+	fails     []rig.Failure
+	errSeen   int
+	st        *stats
+	prevDead  string
+	cutSeen   map[int]bool
+	stormRids []int
 }
 
 var universeKeys = []string{"a", "b", "c", "x", "y", "z.example", "nope"}
@@ -183,10 +187,20 @@ func (r *runner) exec(i int, op Op) {
 	switch op.Op {
 	case "apply":
 		var err error
-		msg, p := rig.Recover(func() { _, err = w.apply(i, op) })
+		var requeue bool
+		_, existed := w.ctrl.Get(op.Name)
+		msg, p := rig.Recover(func() { requeue, err = w.apply(i, op) })
 		if p {
 			r.fail("judge", "c15.panic", "syncUpstreamCluster panicked on apply: "+msg, nil, nil)
 			return
+		}
+		switch {
+		case requeue:
+			r.st.ops["apply:requeued(conflict)"]++
+		case existed:
+			r.st.ops["apply:update"]++
+		default:
+			r.st.ops["apply:create"]++
 		}
 		if err != nil {
 			r.fail("diff", "c15.sync-error", "syncUpstreamCluster returned an error: "+err.Error(), nil, nil)
@@ -199,6 +213,11 @@ func (r *runner) exec(i int, op Op) {
 		r.healthOps()
 	case "delete":
 		var err error
+		if _, existed := w.ctrl.Get(op.Name); existed {
+			r.st.ops["delete:existing"]++
+		} else {
+			r.st.ops["delete:absent"]++
+		}
 		msg, p := rig.Recover(func() { _, err = w.delete(op) })
 		if p {
 			r.fail("judge", "c15.panic", "syncUpstreamCluster panicked on delete: "+msg, nil, nil)
@@ -232,6 +251,13 @@ func (r *runner) exec(i int, op Op) {
 		if rc == nil {
 			return
 		}
+		if rc.storm {
+			if op.Op == "finish" {
+				rc.finish()
+				waitFor(bound, func() bool { return rc.snapshot().completed })
+			}
+			return
+		}
 		if !rc.snapshot().released {
 			rc.release()
 			if rc.hold == "prepick" {
@@ -254,6 +280,15 @@ func (r *runner) exec(i int, op Op) {
 			if !cut {
 				r.mop(map[string]interface{}{"op": "finish", "r": op.Rid})
 			}
+		}
+	case "storm":
+		for j, d := range op.Delays {
+			rid := op.Rid + j
+			if r.ridSet[rid] || w.req(rid) != nil {
+				continue
+			}
+			r.stormRids = append(r.stormRids, rid)
+			w.startAfter(Op{Rid: rid, Host: op.Host, Hold: "stream", Watch: j%2 == 0}, time.Duration(d)*time.Microsecond, true)
 		}
 	case "health":
 		if op.Up < 0 || op.Up >= nStubs {
@@ -566,6 +601,61 @@ func (r *runner) check(i int, op Op, ms modelSnap, opEnd time.Time) {
 			obsReqs = append(obsReqs, map[string]interface{}{"r": mr.R, "eid": mr.Eid, "live": !s.completed})
 		}
 	}
+	// 4b. storm requests: they raced with this op, so where they are is not predicted; but each must have come to
+	// rest in an allowed place: answered (503 / error / cut), or streaming on an endpoint that is still current
+	epLive := map[int]bool{}
+	clDone := map[int]bool{}
+	for _, mc := range ms.Clusters {
+		clDone[mc.O] = mc.Done
+	}
+	for _, me := range ms.Eps {
+		epLive[me.Id] = me.InMap && !me.Done && !clDone[me.Owner]
+	}
+	for _, rid := range r.stormRids {
+		rc := w.req(rid)
+		if rc == nil {
+			continue
+		}
+		waitFor(bound, func() bool { s := rc.snapshot(); return s.completed || ((s.picked != nil || s.upSeen) && s.chunks > 0) })
+		s := rc.snapshot()
+		if s.picked == nil && s.upSeen {
+			// proxied through an endpoint object created by the very op it raced with (its transport was not yet
+			// instrumented): identify it by the credential and the upstream that received the request
+			var cand *epObj
+			for _, eo := range w.eps {
+				if eo.owner.token == s.upToken && eo.up == s.upIdx && (cand == nil || epLive[eo.id] || (!epLive[cand.id] && eo.id > cand.id)) {
+					if cand == nil || !epLive[cand.id] {
+						cand = eo
+					}
+				}
+			}
+			s.picked = cand
+		}
+		if s.completed {
+			if s.picked != nil && s.upSeen && !s.finishAsked && !epLive[s.picked.id] {
+				if !waitFor(bound, func() bool { return rc.snapshot().upDone }) {
+					r.fail("judge", "c15.upstream-left-hanging", what(fmt.Sprintf("storm request %d was cut on the client side but its upstream exchange is still open after %v", rid, bound)), nil, nil)
+				}
+			}
+			r.st.ops["storm-end:"+strings.SplitN(realPhase(s), "(", 2)[0]]++
+			continue
+		}
+		if s.picked == nil {
+			r.fail("judge", "c15.request-hangs", what(fmt.Sprintf("storm request %d for %q neither answered nor proxied after %v (reached the dispatcher: %v)", rid, rc.host, bound, s.reachedPrepick)), nil, nil)
+			continue
+		}
+		if !epLive[s.picked.id] {
+			// on a removed endpoint / deleted cluster: it must be cut
+			if !waitFor(bound, func() bool { return rc.snapshot().completed }) {
+				r.fail("judge", "c15.inflight-not-cut", what(fmt.Sprintf("storm request %d (sent while the op ran) streams on endpoint #%d, which was removed / whose cluster was deleted, and is not cut after %v", rid, s.picked.id, bound)),
+					map[string]interface{}{"chunks": s.chunks, "status": s.status}, nil)
+			}
+			continue
+		}
+		obsReqs = append(obsReqs, map[string]interface{}{"r": rid, "eid": s.picked.id, "live": true})
+		lives = append(lives, live{rc, s.chunks})
+	}
+
 	// unaffected streams keep flowing: at least one more chunk after the comparison above
 	for _, l := range lives {
 		if !waitFor(bound, func() bool { s := l.rc.snapshot(); return s.chunks > l.c0 || s.completed }) || l.rc.snapshot().completed {
@@ -590,7 +680,7 @@ func (r *runner) check(i int, op Op, ms modelSnap, opEnd time.Time) {
 		}
 	}
 	var jr struct {
-		Ok                 bool
+		Ok                  bool
 		Clusters, Eps, Reqs []int
 	}
 	r.st.judgeCalls++
@@ -730,6 +820,7 @@ func runCase(c *rig.Ctx, cs Case, st *stats) []rig.Failure {
 		}
 		return len(r.fails) >= 6
 	}
+	var last modelSnap
 	for i, op := range cs.Ops {
 		r.exec(i, op)
 		opEnd := time.Now()
@@ -740,10 +831,26 @@ func runCase(c *rig.Ctx, cs Case, st *stats) []rig.Failure {
 		if !ok {
 			break
 		}
+		last = ms
+		if op.Op == "storm" && i+1 < len(cs.Ops) {
+			continue // no settling: the storm races with the next op
+		}
 		r.bind(ms)
 		r.check(i, op, ms, opEnd)
 		if stop() {
 			break
+		}
+	}
+	for _, mr := range last.Reqs {
+		k := "req-end:" + mr.Phase
+		if mr.Phase == "proxying" && mr.Done {
+			k += "(cut)"
+		}
+		st.ops[k]++
+	}
+	for _, rc := range r.w.reqs {
+		if rc.hold != "" {
+			st.ops["req-hold:"+rc.hold]++
 		}
 	}
 	st.traces++
